@@ -24,17 +24,8 @@ func c12Spec(rng *rand.Rand, i int) (*SessSpec, string) {
 		sp.Backlog[vb] = append(sp.Backlog[vb], genSnap(rng, o, &ctr))
 	}
 	kind := []string{"mixed", "mixed", "allfinal", "finite", "socket", "hold"}[i%6]
-	switch i % 18 {
-	case 1:
-		kind = "open-window"
-	case 7:
-		kind = "rebalanced"
-	case 13:
-		kind = "finite-complete"
-	case 6:
-		kind = "end-in-rebalance"
-	case 12:
-		kind = "reopen-vs-rebalance"
+	if i%24 >= 18 {
+		kind = []string{"open-window", "rebalanced", "finite-complete", "end-in-rebalance", "reopen-vs-rebalance", "open-window"}[i%24-18]
 	}
 	reqs := map[int]int{}
 	for vb := 0; vb < sp.NumVB; vb++ {
@@ -379,7 +370,7 @@ func init() {
 		Assumptions: []string{"cbsim ends streams with the scripted status codes; gocbcore maps them to the error values the library inspects"},
 		Gen: func(seed int64, tier string) []drv.Scenario {
 			rng := rand.New(rand.NewSource(seed))
-			n := 180
+			n := 240
 			if tier == "thorough" {
 				n = 2400
 			}
